@@ -352,6 +352,16 @@ pub fn execute_rooted(place: &Place, pattern: &str, link: wax::walk::LinkBehavio
 /// fails its program (such a directory is itself still produced, as residue). `rooted`: the glob
 /// starts with the world's absolute path. None if the invariant prefix does not name a real,
 /// reachable directory of the world.
+/// The same entries, each as often, in whatever order (no property fixes the order in which a
+/// directory's children are visited).
+pub fn same_entries(a: &[String], b: &[String]) -> bool {
+    let mut x = a.to_vec();
+    let mut y = b.to_vec();
+    x.sort();
+    y.sort();
+    x == y
+}
+
 pub fn glob_feed_expectation(world: &World, abs: &Path, glob: &Glob<'_>, rooted: bool, follow: bool) -> Option<Vec<String>> {
     glob_feed_expectation_justified(world, abs, glob, rooted, follow).map(|(fed, _)| fed)
 }
@@ -898,7 +908,7 @@ pub fn replay_rootedfeed(case: &Value) -> bool {
     };
     let exp = Glob::new(&text).ok().and_then(|glob| glob_feed_expectation_justified(&world, &place.abs, &glob, true, false));
     println!("Glob(\"<T>/{}\").walk in {}: feeds {:?}; pruned traversal and unjustified cuts {:?}", pat, world.describe(), run.fed, exp);
-    exp.map_or(false, |(e, u)| e != run.fed || !u.is_empty())
+    exp.map_or(false, |(e, u)| !same_entries(&e, &run.fed) || !u.is_empty())
 }
 
 pub fn c13_c16(tier: Tier, which: &'static str) -> i32 {
@@ -941,7 +951,7 @@ pub fn c13_c16(tier: Tier, which: &'static str) -> i32 {
                 bump(&mut c, "walks", 1);
                 let Some((exp, unjustified)) = Glob::new(g).ok().and_then(|glob| glob_feed_expectation_justified(world, &place.abs, &glob, false, false)) else { continue };
                 bump(&mut c, "feed_only_checked", 1);
-                if run.fed != exp || !unjustified.is_empty() {
+                if !same_entries(&run.fed, &exp) || !unjustified.is_empty() {
                     rep.alarm(Alarm {
                         class: None,
                         key: format!("feedonly {} {}", world.describe(), g),
@@ -991,7 +1001,7 @@ pub fn c13_c16(tier: Tier, which: &'static str) -> i32 {
                                     case: with_follow(case_json(world, base, &[], &History::new()), plan.follow),
                                 });
                             }
-                            if base_run.fed != exp {
+                            if !same_entries(&base_run.fed, &exp) {
                                 rep.alarm(Alarm {
                                     class: None,
                                     key: format!("basefeed {} {:?} {}", world.describe(), base, plan.follow),
@@ -1149,7 +1159,7 @@ pub fn c13_c16(tier: Tier, which: &'static str) -> i32 {
                         case: json!({"kind": "rootedfeed", "world": world_json(world), "pattern": pat}),
                     });
                 }
-                if run.fed != exp {
+                if !same_entries(&run.fed, &exp) {
                     rep.alarm(Alarm {
                         class: None,
                         key: format!("rootedfeed {} {}", world.describe(), pat),
@@ -1255,6 +1265,7 @@ pub fn c03(tier: Tier) -> i32 {
             letter_canonical: true,
             position: tier.pick(1, 2),
             position_full: tier.pick(0, 1),
+            adjacent: true,
         };
         let k = std::sync::atomic::AtomicU64::new(0);
         let n = crate::space::for_each_expr(&opts, &|e| {
@@ -1570,7 +1581,7 @@ pub fn replay_stack(case: &Value, which: &str) -> bool {
             if let Some((exp, unjustified)) = Glob::new(g).ok().and_then(|glob| glob_feed_expectation_justified(&world, &place.abs, &glob, false, follow)) {
                 println!("  traversal pruned by the glob's component programs {:?}: {:?}", Glob::new(g).map(|g| g.verif_walk_component_texts()).unwrap_or_default(), exp);
                 println!("  directories cut by the component programs although the glob can match beneath them: {:?}", unjustified);
-                if run.fed != exp || !unjustified.is_empty() {
+                if !same_entries(&run.fed, &exp) || !unjustified.is_empty() {
                     bad = true;
                 }
             }
